@@ -43,6 +43,7 @@ import SwcVerif.Model.AlgoRunParse
 import SwcVerif.Model.AlgoRunCut
 import SwcVerif.Model.AlgoRunRepair
 import SwcVerif.Model.AlgoRunAsc
+import SwcVerif.Model.AlgoRunAscLex
 import SwcVerif.Model.Assemble
 import SwcVerif.Model.AlgoRunBranchTree
 import SwcVerif.Model.AlgoRunWriter
@@ -112,6 +113,7 @@ def dispatch (op : String) (args : List String) : String :=
   | "gnearest" => AlgoRun.handleNearest args
   | "greadfix" => AlgoRun.handleReadFix args
   | "gasc" => AlgoRun.handleAsc args
+  | "gasclex" | "gasctext" => AlgoRun.handleAscLex op args
   | "asm" => Asm.handle args
   | "gasm" => AlgoRun.handleAsm args
   | "brtree" => Branches.handleBranchTree args
